@@ -565,7 +565,7 @@ def main(argv: list[str]) -> int:
     rc = 0
     nrep = 0
     for h in ctx.known_hits:
-        print(f"KNOWN-FINDING: property={prop} {h['id']} {h['what']}")
+        print(f"KNOWN-FINDING: property={prop} {h['id']} [{h['signature']}] {h['what'][:300]}")
     # 1. genuine failing inputs on the real code
     seen_sig = set()
     for fl in ctx.failures:
